@@ -71,6 +71,39 @@ func c05Harvest(c *core.Ctx) {
 			c.Count("executions", 1)
 		})
 	}
+	// every decimal field of every seed replaced by boundary and odd numeric spellings: what the services
+	// record for them must still serialise
+	seedsBySvc := tcpSeeds()
+	for _, svc := range []string{"memcached", "redis", "smtp", "ftp", "http", "telnet", "ipp", "elasticsearch"} {
+		for si, a := range seedsBySvc[svc] {
+			svc, si, a := svc, si, a
+			runs := digitRuns(a.b)
+			if len(a.b) > 400 || len(runs) == 0 {
+				continue
+			}
+			c.Case(fmt.Sprintf("harvest-numeric/%s/%d:%s", svc, si, a.name), func() {
+				s := startSvc(svc)
+				defer s.Stop()
+				k := 0
+				for _, r := range runs {
+					old := string(a.b[r[0]:r[1]])
+					for _, v := range numericBoundaries(old) {
+						m := append(append(append([]byte(nil), a.b[:r[0]]...), v...), a.b[r[1]:]...)
+						lab.ResetEvents()
+						k++
+						conn := dial(s, svc, k%5)
+						lab.Quiesce()
+						conn.Send(m)
+						lab.Quiesce()
+						conn.CloseWrite()
+						settleConn(conn)
+						check(svc, allEvents())
+						c.Count("executions", 1)
+					}
+				}
+			})
+		}
+	}
 	for _, g := range udpGrammars() {
 		g := g
 		c.Case("harvest/udp/"+g.svc, func() {
